@@ -27,6 +27,7 @@ func init() {
 			{"C20.converters-equal", "Converters.equal answers true only for lists of equal length (it licenses passing stored bytes on)", 2, c14ConvertersEqual},
 			{"C20.compress-api", "Compress/Decompress present with the expected signatures", 2, c20CompressAPI},
 			{"C20.pooled-memory", "nothing taken from a sync.Pool and given back by a function leaves that function (compressed output is the chunk's own memory)", 1, func(c *Ctx) { c.pooledMemoryEscapes() }},
+			{"C20.verify-own-store", "local Verify and Prune read and remove chunks through the store they were called on (its names, its converters)", 2, c20VerifyOwnStore},
 			{"C20.id-parse-exact", "a file name parses as a chunk id only if it is exactly 64 hex digits", 1, c20IDParseExact},
 			{"C20.options-from-config", "every store built in cmd/desync gets its options (incl. the storage format) from the config entry of its location", 12, func(c *Ctx) { c.storeOptionsFromConfig() }},
 		},
@@ -371,5 +372,70 @@ func c20IDParseExact(c *Ctx) {
 		c.bad("ChunkIDFromString:exact-length", fn.Pos(), "no accepting path found")
 	default:
 		c.ok("ChunkIDFromString:exact-length", fn.Pos(), "%d accepting path(s), each behind len == 64 (or 32 decoded bytes)", okPaths)
+	}
+}
+
+// c20VerifyOwnStore: Verify and Prune of the local store read and remove chunks through the
+// store they were called on (or a store built from its options).  A second LocalStore built
+// inside with other options - StoreOptions{} to "switch verification on" - is a compressed
+// client whatever the receiver is: an uncompressed store's chunks are looked up under the wrong
+// name, reported missing, and a .cacnk twin is verified (and with repair deleted) in their place.
+func c20VerifyOwnStore(c *Ctx) {
+	for _, key := range []string{"LocalStore.Verify", "LocalStore.Prune"} {
+		fn := c.mustFn(key)
+		if fn == nil {
+			continue
+		}
+		n := 0
+		seen := map[ssa.Instruction]bool{}
+		for _, g := range withClosures(fn) {
+			instrsAll(g, func(_ *ssa.BasicBlock, _ int, ins ssa.Instruction) {
+				call, ok := ins.(*ssa.Call)
+				if !ok || seen[ins] {
+					return
+				}
+				seen[ins] = true
+				name := callee(call)
+				if name != "(desync.LocalStore).GetChunk" && name != "(desync.LocalStore).RemoveChunk" && name != "(desync.LocalStore).nameFromID" {
+					return
+				}
+				n++
+				recv := call.Call.Args[0]
+				okR := true
+				why := ""
+				for _, l := range leaves(recv) {
+					switch x := l.(type) {
+					case *ssa.Parameter:
+						if x != topOf(g).Params[0] {
+							okR, why = false, "parameter "+x.Name()
+						}
+					case *ssa.FreeVar:
+						// the captured receiver
+						for _, cv := range captured(x) {
+							for _, l2 := range leaves(cv) {
+								if p, isP := l2.(*ssa.Parameter); !isP || p != fn.Params[0] {
+									if cl, _ := callOf(l2); cl != nil && callee(cl) == "desync.NewLocalStore" && hasOrigin(cl.Call.Args[1], func(o string) bool { return o == "field:LocalStore.Opt" }) {
+										continue
+									}
+									okR, why = false, fmt.Sprintf("captured value of origins %v", origins(cv))
+								}
+							}
+						}
+					default:
+						if cl, _ := callOf(l); cl != nil && callee(cl) == "desync.NewLocalStore" {
+							if !hasOrigin(cl.Call.Args[1], func(o string) bool { return o == "field:LocalStore.Opt" }) {
+								okR, why = false, fmt.Sprintf("a LocalStore built with options of origins %v", origins(cl.Call.Args[1]))
+							}
+						} else {
+							okR, why = false, fmt.Sprintf("%T", l)
+						}
+					}
+				}
+				c.verdict(okR, key+":own-store", ins.Pos(), "chunks are read and removed through the store the method was called on", "chunks are read or removed through "+why+", not through the store the method was called on: names and converters follow other options (an uncompressed store is treated as a compressed one)")
+			})
+		}
+		if n == 0 {
+			c.info(key+":own-store", fn.Pos(), "no chunk access through a LocalStore method")
+		}
 	}
 }
